@@ -18,12 +18,12 @@ import (
 func init() { register("C06", genC06) }
 
 type c06Desc struct {
-	Who    string  `json:"who"`   // "rt" or "e<k>"
-	Fault  string  `json:"fault"` // crash point
-	Exit   vh.Exit `json:"exit"`
-	NExt   int     `json:"extensions"`
-	Timing string  `json:"invoke_timing"` // early (with init in progress) | late (after the fault happened)
-	RtResp string  `json:"rt_response"`   // for faults during an invocation: "before" (runtime responded first) | "withheld"
+	Who    string     `json:"who"`   // "rt" or "e<k>"
+	Fault  string     `json:"fault"` // crash point
+	Exit   vh.Exit    `json:"exit"`
+	NExt   int        `json:"extensions"`
+	Timing string     `json:"invoke_timing"` // early (with init in progress) | late (after the fault happened)
+	RtResp string     `json:"rt_response"`   // for faults during an invocation: "before" (runtime responded first) | "withheld"
 	Second *c06Second `json:"second,omitempty"`
 	// After: a different fault in the generation that follows the recovery ("" | rtcrash | extcrash); with
 	// ShutdownReport the healthy extensions of the failed generation report an exit error when they are shut down
@@ -31,8 +31,8 @@ type c06Desc struct {
 	ShutdownReport bool   `json:"shutdown_report,omitempty"`
 	// RefusedReport: a healthy extension posts an init error report when it is no longer allowed to (403) before
 	// the fault happens: a refused call must not be taken for the first fault
-	RefusedReport bool `json:"refused_report,omitempty"`
-	HookDelay map[string]int `json:"hook_delay_ms,omitempty"`
+	RefusedReport bool           `json:"refused_report,omitempty"`
+	HookDelay     map[string]int `json:"hook_delay_ms,omitempty"`
 }
 
 type c06Second struct {
